@@ -83,7 +83,9 @@ func r20_1(r *Report, p *Program) {
 		equal := func(a string) bool {
 			return strings.Contains(a, "Equalities.DeepEqual)(") && strings.Contains(a, "p1.Spec") && strings.Contains(a, ".Spec)")
 		}
-		built := func(a string) bool { return strings.HasPrefix(a, "(call(controller/") && strings.Contains(a, "."+s.ctor+")(") && strings.HasSuffix(a, "#1 == nil)") }
+		built := func(a string) bool {
+			return strings.HasPrefix(a, "(call(controller/") && strings.Contains(a, "."+s.ctor+")(") && strings.HasSuffix(a, "#1 == nil)")
+		}
 		ok, why := true, ""
 		var rows []map[string]string
 		cases := map[string]int{}
